@@ -5,7 +5,7 @@
   (clients, origin, context, callers) from the initial state; no bound on the number of
   connections or steps, and over both kinds of context handed to `Shutdown` (one that may expire =
   positive shutdown timeout, one that never expires = shutdown timeout 0, section G).
-  Helper lemmas: `Lemmas/C11Step|C11|C11Inv|C11Progress|C11Ctx.lean`.
+  Helper lemmas: `Lemmas/C11Step|C11|C11Inv|C11Progress|C11Ctx|C11Tunnel.lean`.
 
   Reading of the ghost fields of a connection (`Model/C11.lean`):
     regClosing  = value of `closing` when the counter was incremented for the connection
@@ -15,6 +15,7 @@
 -/
 import FwdVerif.Lemmas.C11Progress
 import FwdVerif.Lemmas.C11Ctx
+import FwdVerif.Lemmas.C11Tunnel
 
 namespace FwdVerif
 namespace C11
@@ -226,62 +227,67 @@ example : (run init ([.connect 0 false, .serveCheck, .accept 0, .conn 0 .lockReq
      .conn 0 .check0])).map (fun s => ((s.conns 0).pc, (s.conns 0).regClosing, s.shut)) =
     some (.deferredClose, true, .doneNil) := by decide
 
-/-! ## D. Responses -/
+/-! ## D. Responses, and the exchanges that were at their origin when shutdown began
 
-/-- full clause: every response head written while closing carries `Connection: close`.
-    FALSE of the unchanged code for a successful CONNECT (see the witness below). -/
-def c11_response_while_closing_close_full : Prop :=
-  ∀ s s' c, Reachable s → s.closing = true → step s (.conn c .writeHead) = some s' →
-    (s'.conns c).lastClose = true
+  The property: "every exchange whose request has already reached its origin completes normally: its
+  response is delivered in full and the proxy then closes that connection".  For a CONNECT the
+  response is the 200 AND the tunnel behind it: the fixed bytes `HTTP/1.1 200 OK` cannot carry
+  `Connection: close`, so telling the client that the tunnel exists and closing at once would not be
+  a complete exchange.  The tunnel is in-flight work like one established before the shutdown: it ends
+  when an endpoint ends it, or by the forced close after the deadline; then the connection is closed. -/
 
-/-- every response to a request other than CONNECT whose head is written after `closing` carries
-    `Connection: close` -/
-theorem c11_response_while_closing_close_partial {s s' : State} {c : ConnId} (hc : s.closing = true)
-    (hnc : (s.conns c).cur.connect = false) (hst : step s (.conn c .writeHead) = some s') :
-    (s'.conns c).lastClose = true ∧ (s'.conns c).pc = .writing := by
+/-- the states of an exchange from "the origin has the request" to "the response is written" -/
+def inExchange : PC → Bool
+  | .awaitOrigin | .writeResponse | .writing => true
+  | _ => false
+
+/-- every response head written while closing carries `Connection: close` — except the 200 of a
+    CONNECT (fixed bytes), which is followed by the tunnel -/
+theorem c11_response_while_closing_close {s s' : State} {c : ConnId} (hc : s.closing = true)
+    (hst : step s (.conn c .writeHead) = some s') :
+    ((s.conns c).cur.connect = false → (s'.conns c).lastClose = true ∧ (s'.conns c).pc = .writing) ∧
+    ((s.conns c).cur.connect = true → (s'.conns c).lastClose = false ∧ (s'.conns c).pc = .tunnel) := by
   obtain ⟨x, e, hx, rfl⟩ := step_conn_eq hst
-  simp only [cstep, hc, hnc] at hx
+  simp only [cstep, hc] at hx
   split at hx
-  · cases hx; simp [applyEff, setConn]
+  · split at hx <;> (cases hx; simp_all [applyEff, setConn])
   · simp at hx
 
-/-- the 200 to a CONNECT written while closing has no `Connection: close` (fixed bytes) … -/
-theorem c11_connect_while_closing_witness :
-    ∃ s s' c, Reachable s ∧ s.closing = true ∧ step s (.conn c .writeHead) = some s' ∧
-      (s'.conns c).lastClose = false ∧ (s'.conns c).pc = .deferredClose := by
-  let acts := openConn 0 ++ toOrigin 0 { connect := true } ++ [.originAnswer 0, .conn 0 .respReady] ++
-    beginShutdown
-  have hsome : (run init acts).isSome = true := by decide
-  obtain ⟨s, hs⟩ := Option.isSome_iff_exists.mp hsome
-  have hr : Reachable s := reachable_run Reachable.init hs
-  have hcl : (run init acts).map (fun s => (s.closing, (s.conns 0).pc, (s.conns 0).sockClosed, (s.conns 0).cur.connect))
-      = some (true, .writeResponse, false, true) := by decide
-  rw [hs] at hcl
-  simp only [Option.map_some, Option.some.injEq, Prod.mk.injEq] at hcl
-  obtain ⟨h1, h2, h3, h4⟩ := hcl
-  refine ⟨s, _, 0, hr, h1, step_conn_of (x := ?_) (e := .none) ?_, ?_, ?_⟩
-  · exact { s.conns 0 with pc := .deferredClose, respClosing := true, lastClose := false,
-                            unseen := (s.conns 0).unseen ++ [false] }
-  · simp [cstep, h1, h2, h3, h4]
-  · simp [applyEff, setConn]
-  · simp [applyEff, setConn]
-
-theorem c11_response_while_closing_close_full_false : ¬ c11_response_while_closing_close_full := by
-  intro hfull
-  obtain ⟨s, s', c, hr, hc, hst, hl, _⟩ := c11_connect_while_closing_witness
-  have := hfull s s' c hr hc hst
-  rw [hl] at this
-  cases this
-
-/-- … and the tunnel is not established: the handler closes the connection -/
-theorem c11_connect_while_closing_closes {s s' : State} {c : ConnId} (hc : s.closing = true)
+/-- a successful CONNECT enters the tunnel whether or not the proxy is closing: the client that is
+    told `200` gets its tunnel -/
+theorem c11_connect_established_enters_tunnel {s s' : State} {c : ConnId}
     (hcn : (s.conns c).cur.connect = true) (hst : step s (.conn c .writeHead) = some s') :
-    (s'.conns c).pc = .deferredClose := by
+    (s'.conns c).pc = .tunnel ∧ (s'.conns c).unseen = (s.conns c).unseen ++ [false] ∧
+      (s'.conns c).respClosing = s.closing := by
   obtain ⟨x, e, hx, rfl⟩ := step_conn_eq hst
-  simp only [cstep, hc, hcn] at hx
+  simp only [cstep, hcn] at hx
   split at hx
   · cases hx; simp [applyEff, setConn]
   · simp at hx
+
+/-- an exchange whose request is at its origin completes normally — the origin's answer is taken,
+    the head is written, the body is written in full and handed to the client, then the connection is
+    closed (`lastClose`) or read again — unless it is CUT: the client vanished or the socket was closed
+    under the handler.  No other step exists. -/
+theorem c11_exchange_at_origin_completes_unless_cut {s s' : State} {c : ConnId} {a : CAct}
+    (hp : inExchange (s.conns c).pc = true) (hst : step s (.conn c a) = some s') :
+    (a = .respReady ∧ (s'.conns c).pc = .writeResponse) ∨
+    (a = .writeHead ∧ ((s'.conns c).pc = .writing ∨ (s'.conns c).pc = .tunnel)) ∨
+    (a = .writeDone ∧ (s'.conns c).unseen = (s.conns c).unseen ++ [(s.conns c).lastClose] ∧
+      (s'.conns c).pc = (if (s.conns c).lastClose then .deferredClose else .idleRead)) ∨
+    ((a = .writeHeadFail ∨ a = .writeFail) ∧ (s'.conns c).pc = .deferredClose ∧
+      ((s.conns c).sockClosed = true ∨ (s.conns c).clientGone = true)) := by
+  obtain ⟨x, e, hx, rfl⟩ := step_conn_eq hst
+  cstep_cases hx <;> simp_all [applyEff, setConn, inExchange]
+
+/-- a socket is closed under a handler that has not yet closed it itself only by `Close` — the forced
+    close (which `run` calls only after the shutdown deadline, G) -/
+theorem c11_socket_closed_under_handler_only_by_close {s : State} (h : Reachable s) (c : ConnId)
+    (hs : (s.conns c).sockClosed = true) (hp : selfClosed (s.conns c).pc = false) :
+    closeClosed s.close = true := by
+  rcases ((tuninv_reachable h).loc c).sock hs with h1 | h1
+  · rw [hp] at h1; cases h1
+  · exact h1
 
 /-- a response body in flight: if its head was written while closing it carries the option -/
 theorem c11_writing_while_closing_has_close {s : State} (h : Reachable s) (c : ConnId)
@@ -298,6 +304,20 @@ theorem c11_close_after_close_response {s s' : State} {c : ConnId}
   split at hx
   · cases hx; simp [applyEff, setConn]
   · simp at hx
+
+/-- "the proxy then closes that connection": the only step of a handler at its deferred close is
+    `conn.Close()` -/
+theorem c11_deferred_close_closes_socket {s s' : State} {c : ConnId} {a : CAct}
+    (hp : (s.conns c).pc = .deferredClose) (hst : step s (.conn c a) = some s') :
+    a = .sockClose ∧ (s'.conns c).sockClosed = true ∧ (s'.conns c).pc = .counterDec := by
+  obtain ⟨x, e, hx, rfl⟩ := step_conn_eq hst
+  cstep_cases hx <;> simp_all [applyEff, setConn]
+
+-- a GET at its origin when shutdown begins: answered, written with `Connection: close`, closed
+example : (run init (openConn 0 ++ toOrigin 0 {} ++ beginShutdown ++
+    [.originAnswer 0, .conn 0 .respReady, .conn 0 .writeHead, .conn 0 .writeDone, .conn 0 .sockClose])).map
+      (fun s => ((s.conns 0).pc, (s.conns 0).unseen, (s.conns 0).sockClosed)) =
+    some (.counterDec, [true], true) := by decide
 
 /-! ## E. `Close` -/
 
@@ -456,6 +476,133 @@ example : (run init (cancelWithRequestAtOrigin ++
     [.ctxExpire, .shutCtx, .shutUnlock, .runAfterShutdown, .closeLock, .closeCloseCh, .closeConn 0, .closeAll,
      .closeUnlock, .runAfterClose, .runRet, .closedSeen 0])).map (fun s => (view 0 s, s.runner, s.close)) =
     some ((1, true, .awaitOrigin, true, .doneErr), .finished, .done) := by decide
+
+/-! ## H. Tunnels: established before or during the shutdown, they are in-flight work -/
+
+/-- the actions that bring a CONNECT whose dial completes AFTER shutdown began into its tunnel -/
+def connectDuringShutdown (c : ConnId) : List Action :=
+  openConn c ++ toOrigin c { connect := true } ++ beginShutdown ++
+    [.shutPoll, .originAnswer c, .conn c .respReady, .conn c .writeHead]
+
+/-- only a CONNECT is ever in the tunnel state -/
+theorem c11_tunnel_only_connect {s : State} (h : Reachable s) (c : ConnId)
+    (hp : (s.conns c).pc = .tunnel) : (s.conns c).cur.connect = true :=
+  ((tuninv_reachable h).loc c).tun hp
+
+/-- a tunnel is in-flight work: its connection is in the `conns` map (so `Close` will close its
+    socket) and counted by `connsWg` (so `Shutdown` waits for it) -/
+theorem c11_tunnel_registered_and_counted {s : State} (h : Reachable s) (c : ConnId)
+    (hp : (s.conns c).pc = .tunnel) : c ∈ s.registered ∧ 1 ≤ s.counter := by
+  have hi := inv_reachable h
+  have hcid : c ∈ s.ids := mem_ids_of_pc hi (by rw [hp]; simp)
+  refine ⟨(hi.reg c).mpr (by rw [hp]; rfl), ?_⟩
+  rw [hi.counter]
+  exact cnt_pos_of_mem hcid (by rw [hp]; rfl)
+
+/-- `Shutdown` does not reach `return nil` while a tunnel is open -/
+theorem c11_shutdown_nil_no_tunnel_open {s : State} (h : Reachable s) (hs : s.shut = .retNil)
+    (c : ConnId) : (s.conns c).pc ≠ .tunnel := by
+  intro hp
+  have := (c11_shutdown_nil_only_drained h hs).2 c
+  rw [hp] at this
+  cases this
+
+/-- bytes are relayed only through a tunnel whose socket is open -/
+theorem c11_relay_only_in_tunnel {s s' : State} {c : ConnId} (h : Reachable s)
+    (hst : step s (.conn c .relay) = some s') :
+    (s.conns c).pc = .tunnel ∧ (s.conns c).cur.connect = true ∧ (s.conns c).sockClosed = false ∧
+      (s'.conns c).pc = .tunnel := by
+  obtain ⟨x, e, hx, rfl⟩ := step_conn_eq hst
+  simp only [cstep] at hx
+  split at hx
+  · rename_i hg
+    cases hx
+    exact ⟨hg.1, c11_tunnel_only_connect h c hg.1, hg.2, by simpa [applyEff, setConn] using hg.1⟩
+  · simp at hx
+
+/-- what a client gets back through the proxy was relayed through the tunnel of its CONNECT: the
+    connection is still in that tunnel or on its way out of it (it never reads another request) -/
+theorem c11_echo_only_through_tunnel {s s' : State} {c : ConnId} (h : Reachable s)
+    (hst : step s (.echoSeen c) = some s') :
+    (s.conns c).cur.connect = true ∧ tunPath (s.conns c).pc = true := by
+  simp only [step] at hst
+  split at hst
+  · rename_i hg
+    exact ((tuninv_reachable h).loc c).relayed hg
+  · simp at hst
+
+/-- a tunnel — established before or during the shutdown — keeps copying until an endpoint ends it
+    or its socket is closed under it: the only steps of its handler are `relay` and, under exactly
+    these conditions, `tunnelEnd` (which leads to the deferred close) -/
+theorem c11_tunnel_ends_only_by_endpoint_or_closed_socket {s s' : State} {c : ConnId} {a : CAct}
+    (hp : (s.conns c).pc = .tunnel) (hst : step s (.conn c a) = some s') :
+    (a = .relay ∧ (s'.conns c).pc = .tunnel) ∨
+    (a = .tunnelEnd ∧ (s'.conns c).pc = .deferredClose ∧
+      ((s.conns c).sockClosed = true ∨ (s.conns c).clientGone = true ∨ (s.conns c).originEnded = true)) := by
+  obtain ⟨x, e, hx, rfl⟩ := step_conn_eq hst
+  cstep_cases hx <;> simp_all [applyEff, setConn]
+
+/-- … and the socket is closed under it only by the forced close: a tunnel ends because its client
+    left, because its target ended it, or because `Close` was called — under `run`, only after the
+    shutdown deadline -/
+theorem c11_tunnel_ends_by_endpoint_or_forced_close {s s' : State} {c : ConnId} (h : Reachable s)
+    (hp : (s.conns c).pc = .tunnel) (hst : step s (.conn c .tunnelEnd) = some s') :
+    (s.conns c).clientGone = true ∨ (s.conns c).originEnded = true ∨
+      (closeClosed s.close = true ∧ (s.runner ≠ .idle → s.ctxExpired = true)) := by
+  rcases c11_tunnel_ends_only_by_endpoint_or_closed_socket hp hst with ⟨ha, _⟩ | ⟨_, _, h1 | h1 | h1⟩
+  · cases ha
+  · right; right
+    have hcc := c11_socket_closed_under_handler_only_by_close h c h1 (by rw [hp]; rfl)
+    refine ⟨hcc, fun hr => (c11_run_closes_only_after_expiry h hr ?_).2⟩
+    intro hidle; rw [hidle] at hcc; cases hcc
+  · exact Or.inl h1
+  · exact Or.inr (Or.inl h1)
+
+/-- after `Close` swept the map the socket of every tunnel is closed -/
+theorem c11_after_close_tunnel_socket_closed {s : State} (h : Reachable s)
+    (hs : closeSwept s.close = true) (c : ConnId) (hp : (s.conns c).pc = .tunnel) :
+    (s.conns c).sockClosed = true := by
+  rcases c11_after_close_all_closed h hs c (by rw [hp]; rfl) with h1 | ⟨_, _, h1⟩
+  · exact h1
+  · rw [hp] at h1; cases h1
+
+-- the CONNECT is at its target when shutdown begins, the dial returns later: 200 without
+-- `Connection: close`, and the tunnel is up (counted: Shutdown keeps polling)
+example : (run init (connectDuringShutdown 0)).map
+    (fun s => (view 0 s, (s.conns 0).respClosing, (s.conns 0).unseen)) =
+    some ((1, true, .tunnel, false, .selecting), true, [false]) := by decide
+
+-- … traffic goes through it both ways during the shutdown; the client ends it; the proxy closes the
+-- connection; Shutdown returns nil
+example : (run init (connectDuringShutdown 0 ++
+    [.respSeen 0 false, .conn 0 .relay, .echoSeen 0, .conn 0 .relay, .echoSeen 0, .gone 0,
+     .conn 0 .tunnelEnd, .conn 0 .sockClose, .conn 0 .counterDec, .shutTimer, .shutPoll, .shutUnlock,
+     .shutdownRet true])).map (view 0) =
+    some (0, true, .waitingForLockUnreg, true, .doneNil) := by decide
+
+-- … or the target ends it
+example : (run init (connectDuringShutdown 0 ++
+    [.respSeen 0 false, .conn 0 .relay, .echoSeen 0, .originEnd 0, .conn 0 .tunnelEnd, .conn 0 .sockClose,
+     .closedSeen 0, .conn 0 .counterDec, .shutTimer, .shutPoll, .shutUnlock, .shutdownRet true])).map (view 0) =
+    some (0, true, .waitingForLockUnreg, true, .doneNil) := by decide
+
+-- … or nobody does: Shutdown returns the context's error at the deadline, Close closes the socket
+-- under the tunnel, which ends
+example : (run init (connectDuringShutdown 0 ++
+    [.respSeen 0 false, .conn 0 .relay, .echoSeen 0, .ctxExpire, .shutCtx, .shutUnlock, .shutdownRet false,
+     .closeCall, .closeLock, .closeCloseCh, .closeConn 0, .closeAll, .closeUnlock, .closeRet,
+     .conn 0 .tunnelEnd, .conn 0 .sockClose, .closedSeen 0])).map (view 0) =
+    some (1, true, .counterDec, true, .doneErr) := by decide
+
+-- nothing can end the tunnel while both endpoints stay and Close has not been called
+example : (run init (connectDuringShutdown 0 ++ [.conn 0 .tunnelEnd])).isSome = false := by decide
+
+-- a tunnel established before the shutdown behaves the same
+example : (run init (openConn 0 ++ toOrigin 0 { connect := true } ++
+    [.originAnswer 0, .conn 0 .respReady, .conn 0 .writeHead] ++ beginShutdown ++
+    [.shutPoll, .conn 0 .relay, .echoSeen 0, .gone 0, .conn 0 .tunnelEnd, .conn 0 .sockClose,
+     .conn 0 .counterDec, .shutTimer, .shutPoll, .shutUnlock, .shutdownRet true])).map (view 0) =
+    some (0, true, .waitingForLockUnreg, true, .doneNil) := by decide
 
 end C11
 end FwdVerif
